@@ -252,6 +252,13 @@ impl expr::Expr
 							return true;
 						}
 							
+						// A local of this name hides the function
+						// when the call is evaluated.
+						if provider.locals.contains_key(&names[0])
+						{
+							return false;
+						}
+
 						let query = StaticallyKnownFunctionQuery {
 							func: &names[0],
 							args,
